@@ -99,6 +99,9 @@ pub enum Ev {
     PacketReceived { space: Space, pn: u64 },
     EcnState { state: u8 },
     SlowStartExited,
+    PacingRate { bytes_per_second: u64, burst: u32 },
+    /// the bounded ACK-range store evicted these received packet numbers
+    RxAckRangeDropped { lo: u64, hi: u64 },
 }
 
 #[derive(Clone, Copy, Debug, PartialEq, Eq)]
@@ -598,6 +601,27 @@ impl event::Subscriber for EventTap {
         _e: &events::SlowStartExited,
     ) {
         self.push(meta, Ev::SlowStartExited);
+    }
+
+    fn on_pacing_rate_updated(
+        &mut self,
+        _c: &mut (),
+        meta: &events::ConnectionMeta,
+        e: &events::PacingRateUpdated,
+    ) {
+        self.push(meta, Ev::PacingRate { bytes_per_second: e.bytes_per_second, burst: e.burst_size });
+    }
+
+    fn on_rx_ack_range_dropped(
+        &mut self,
+        _c: &mut (),
+        meta: &events::ConnectionMeta,
+        e: &events::RxAckRangeDropped,
+    ) {
+        self.push(
+            meta,
+            Ev::RxAckRangeDropped { lo: *e.packet_number_range.start(), hi: *e.packet_number_range.end() },
+        );
     }
 
     fn on_endpoint_datagram_dropped(
